@@ -72,11 +72,12 @@ func main() {
 	// them is equivalent to a switch at the thread's next point (nothing visible happens in between).
 	fine := vsched.Mask(vsched.KLock, vsched.KChan, vsched.KAtomic, vsched.KEnv, vsched.KSleep)
 	var jobs []sdrv.Job
+	storage := ""
 	add := func(topos []string, alpha []lockh.Prog, faults bool, cfg vsched.Config) {
 		for _, tn := range topos {
 			topo := lockh.Topologies[tn]
 			for _, ps := range product(alpha, len(topo.LockerOf)) {
-				sc := &lockh.Scenario{Topo: topo, Progs: ps, Shutdown: -1, Lease: lease, Faults: faults}
+				sc := &lockh.Scenario{Topo: topo, Progs: ps, Shutdown: -1, Lease: lease, Faults: faults, Storage: storage}
 				jobs = append(jobs, job(sc, cfg))
 			}
 		}
@@ -101,7 +102,13 @@ func main() {
 		}
 		add([]string{"d"}, progs("L", "T"), false, vsched.Config{P: 1, Preempt: fine, MaxSteps: 5000})
 		add([]string{"e"}, progs("L", "T"), true, vsched.Config{P: 0, F: 1, Preempt: fine, MaxSteps: 5000})
-		bounds["tiers"] = "2 threads {L,T,C,X}^2 P<=2; {L,T,C,LL,Lh,TT}^2 P<=1; faults F<=1 with P<=1 on {L,T,C,LT,LL}^2, on Lh x {L,T,LT} and with P=0 on 3 providers {L,T}^3; 3 threads {L,T}^3 P<=1"
+		// the same lock over the Redis backend (miniredis): every Redis command is a scheduling point
+		storage = "redis"
+		// (no cancellable contexts here: go-redis runs a command of a cancellable context on a goroutine of its own,
+		// outside the controlled scheduler)
+		add([]string{"a", "b", "c"}, progs("L", "T", "LL", "TT", "LT"), false, vsched.Config{P: 1, Preempt: fine, MaxSteps: 20000})
+		storage = ""
+		bounds["tiers"] = "Redis backend: {L,T,LL,TT,LT}^2 P<=1 at Redis-command granularity; in-memory: 2 threads {L,T,C,X}^2 P<=2; {L,T,C,LL,Lh,TT}^2 P<=1; faults F<=1 with P<=1 on {L,T,C,LT,LL}^2, on Lh x {L,T,LT} and with P=0 on 3 providers {L,T}^3; 3 threads {L,T}^3 P<=1"
 		budget = 4 * time.Minute
 	} else {
 		add(two, core, false, vsched.Config{P: 3, Preempt: fine, MaxSteps: 5000})
@@ -113,7 +120,11 @@ func main() {
 		// coarse granularity (storage operations only) with a high preemption bound
 		coarse := vsched.Mask(vsched.KEnv, vsched.KSleep)
 		add([]string{"a", "b", "c", "d", "e"}, progs("L", "T", "C", "LL"), false, vsched.Config{P: 5, Preempt: coarse, MaxSteps: 5000})
-		bounds["tiers"] = "2 threads {L,T,C,X}^2 P<=3; wide alphabet P<=2; faults F<=2/P<=1 and F<=1/P<=2; 3 threads (topologies d,e) {L,T,C}^3 P<=2; storage-operation granularity P<=5 on all topologies"
+		storage = "redis"
+		add([]string{"a", "b", "c"}, progs("L", "T", "LL", "TT", "LT"), false, vsched.Config{P: 2, Preempt: fine, MaxSteps: 20000})
+		add([]string{"b"}, progs("L", "T", "LT"), true, vsched.Config{P: 1, F: 1, Preempt: fine, MaxSteps: 20000})
+		storage = ""
+		bounds["tiers"] = "Redis backend: {L,T,LL,TT,LT}^2 P<=2, faults F<=1; in-memory: 2 threads {L,T,C,X}^2 P<=3; wide alphabet P<=2; faults F<=2/P<=1 and F<=1/P<=2; 3 threads (topologies d,e) {L,T,C}^3 P<=2; storage-operation granularity P<=5 on all topologies"
 		budget = 25 * time.Minute
 	}
 	// heavy jobs first (dynamic queue): more preemptions, more cancellers
